@@ -1,5 +1,5 @@
 SPECIFICATION Spec
 CONSTANTS W = 2
-          N = 256
+          N = 160
 INVARIANTS DivSem BitView Logic Shift Counts Single Fields Lists
 CHECK_DEADLOCK FALSE
